@@ -116,12 +116,12 @@ theorem find_zero (hT : TermOK T F) (hrec : T.usesRecovery = true)
   have hm : recM F = 3 * F + 7 := rfl
   simp only [Nat.zero_add, Nat.one_mul] at haf ⊢
   have hc : c.input = [] := List.eq_nil_of_length_eq_zero hlen
-  rcases step_find (failAt := failAt) (startLoc := startLoc) hT hrec c hadj
-      (Nat.le_trans (accFuel_mono (by omega)) haf) (some (t, i))
-      (fun t' i' h => by cases h; exact hi) e dropped sl fe with
+  have haf1 : accFuel F (c.states.length + 1) ≤ af := Nat.le_trans (accFuel_mono (by omega)) haf
+  rcases step_find (F := F) (af := af) (failAt := failAt) (startLoc := startLoc) hT hrec c hadj
+      (some (t, i)) (fun t' i' h => by cases h; exact hi) e dropped sl fe with
     ⟨c', r, hs, hr⟩ | ⟨c', hs, hadj', hlen', hin', hcert⟩ | ⟨_, _, t', i', rest, _, hinp, _⟩ |
       ⟨t0, i0, h0, _, hs⟩
-  · exact ⟨1, c', r, by rw [run_one, hs], hr, le_units (one_unit F) (by omega)⟩
+  · exact ⟨1, c', r, by rw [run_one, hs], hr haf1, le_units (one_unit F) (by omega)⟩
   · obtain ⟨n, c'', res, hrun, hr, hn⟩ := after_push hT hP c' t i fe hi (hin' ▸ hlen) (hin' ▸ hin) hadj' hcert
       (by simp only [Nat.zero_add, Nat.one_mul]; exact Nat.le_trans (accFuel_mono (by omega)) haf)
     simp only [Nat.zero_add, Nat.one_mul] at hn
@@ -142,12 +142,12 @@ theorem find_succ (hT : TermOK T F) (hrec : T.usesRecovery = true) {r : Nat}
   intro c t i e dropped sl fe hlen hin hi hadj haf
   have hm : recM F = 3 * F + 7 := rfl
   have hsplit : (r + 1 + 1) * recM F = (r + 1) * recM F + recM F := by rw [Nat.add_mul, Nat.one_mul]
-  rcases step_find (failAt := failAt) (startLoc := startLoc) hT hrec c hadj
-      (Nat.le_trans (accFuel_mono (by omega)) haf) (some (t, i))
-      (fun t' i' h => by cases h; exact hi) e dropped sl fe with
+  have haf1 : accFuel F (c.states.length + 1) ≤ af := Nat.le_trans (accFuel_mono (by omega)) haf
+  rcases step_find (F := F) (af := af) (failAt := failAt) (startLoc := startLoc) hT hrec c hadj
+      (some (t, i)) (fun t' i' h => by cases h; exact hi) e dropped sl fe with
     ⟨c', res, hs, hr⟩ | ⟨c', hs, hadj', hlen', hin', hcert⟩ | ⟨t0, i0, t', i', rest, h0, hinp, hk, hs⟩ |
       ⟨_, _, _, hinp, _⟩
-  · exact ⟨1, c', res, by rw [run_one, hs], hr, le_units (one_unit F) (by omega)⟩
+  · exact ⟨1, c', res, by rw [run_one, hs], hr haf1, le_units (one_unit F) (by omega)⟩
   · obtain ⟨n, c'', res, hrun, hr, hn⟩ := after_push hT hP c' t i fe hi (hin' ▸ hlen) (hin' ▸ hin) hadj' hcert
       (Nat.le_trans (accFuel_mono (by omega)) haf)
     exact ⟨1 + n, c'', res, run_trans (by rw [run_one, hs]) hrun, hr,
@@ -178,5 +178,23 @@ theorem pull_find_ok (hT : TermOK T F) : ∀ r, PullOK T F af failAt startLoc r 
   | succ r ih =>
     have h := pull_succ hT ih.1 ih.2
     exact ⟨h, fun hrec => find_succ hT hrec h (ih.2 hrec)⟩
+
+/-! ### from the initial configuration -/
+
+/-- bound on the number of machine steps of a whole run on `len` stream items (recovery on or off) -/
+def termBoundRec (F len : Nat) : Nat := (F + 1) * (1 + (len + 1) * recM F)
+
+/-- `accepts` fuel that suffices for a whole run on `len` stream items (recovery on or off) -/
+def termAccFuelRec (F len : Nat) : Nat := accFuel F (1 + (len + 1) * recM F)
+
+theorem init_terminates_gen (hT : TermOK T F) (input : List Item)
+    (hin : ∀ t k, Item.tok t ∈ input → t.kind = some k → k < T.nTerm)
+    (haf : termAccFuelRec F input.length ≤ af) :
+    ∃ n c r, n ≤ termBoundRec F input.length ∧
+      run T af failAt startLoc n (init startLoc input) .pull = (c, .done r) ∧ r ≠ .panic .outOfFuel := by
+  obtain ⟨n, c, r, hrun, hr, hn⟩ :=
+    (pull_find_ok (af := af) (failAt := failAt) (startLoc := startLoc) hT input.length).1
+      (init startLoc input) rfl hin .base haf
+  exact ⟨n, c, r, hn, hrun, hr⟩
 
 end LalrpopModel.LR.Term
